@@ -126,4 +126,27 @@ Section WithRoot.
       cbn [map psum points_sum fold_left]. rewrite gpoint_xy. apply IH. }
     rewrite H. reflexivity.
   Qed.
+
+  (* the three ties stated over the model's own types (lineT / pointT) *)
+  Definition gcoordq (v : vtx Q) : geom_Coordinates Q :=
+    Mk_geom_Coordinates (Mk_geom_XY (vx v) (vy v)) (vz v) (vm v) 0%Z.
+  Definition gline (l : lineT Q) : list (geom_Coordinates Q) := map gcoordq (line_vs l).
+  Lemma gline_xys (l : lineT Q) : map cxy (gline l) = line_xys l.
+  Proof. unfold gline, line_xys. rewrite map_map. reflexivity. Qed.
+
+  Lemma go_mls_length : forall (ls : list (lineT Q)) (ct : Z),
+    geom_MultiLineString_Length rops (Mk_geom_MultiLineString (map gls (map gline ls)) ct) = Known (mline_length sq ls).
+  Proof.
+    intros ls ct. rewrite tie_MultiLineString_Length. f_equal.
+    apply (mlen_is_mline_length ls gline gline_xys).
+  Qed.
+  Lemma go_ls_centroid : forall l : lineT Q,
+    known_map point_xy_opt (geom_LineString_Centroid rops (gls (gline l))) = Known (line_centroid sq l).
+  Proof.
+    intros l. rewrite tie_LineString_Centroid. f_equal. rewrite gline_xys. apply lc_xy_is_line_centroid.
+  Qed.
+  Lemma go_mp_centroid : forall (ps : list (pointT Q)) (ct : Z),
+    known_map point_xy_opt (geom_MultiPoint_Centroid rops (Mk_geom_MultiPoint (map gpoint ps) ct))
+    = Known (mpoint_centroid ps).
+  Proof. intros ps ct. rewrite tie_MultiPoint_Centroid. f_equal. apply mpc_is_mpoint_centroid. Qed.
 End WithRoot.
